@@ -616,6 +616,14 @@ def _eval_atom(a, val, cache):
         return 1.0 if math.isnan(args[0]) else 0.0
     if op == "isinf":
         return 1.0 if math.isinf(args[0]) else 0.0
+    if op.startswith("round_to_"):
+        import numpy as _np
+        try:
+            import ml_dtypes as _ml
+            dt = {"bfloat16": _ml.bfloat16}.get(op[9:]) or _np.dtype(op[9:])
+        except Exception:
+            dt = _np.dtype(op[9:])
+        return float(_np.asarray(args[0], dtype=dt))
     if op == "pow":
         return args[0] ** args[1]
     if op in ("sin", "cos", "tanh", "tan"):
@@ -725,6 +733,8 @@ def diff(p: Poly, s) -> Poly:
                 r = da * unary("sign", args[0])
             elif op in ("lt", "eq", "isnan", "isinf", "sign"):
                 r = ZERO
+            elif op.startswith("round_to_"):
+                r = da            # conversion is linear: the tangent is converted, not rounded away
             else:
                 raise NotImplementedError(f"derivative of fn atom {op}")
         memo[i] = r
